@@ -1154,7 +1154,82 @@ func nontrivial(c, res string) bool {
 	return true
 }
 
+// runsOf splits n into its maximal runs of ones (from the top) and the gaps of zeros that
+// follow each of them.
+func runsOf(n *big.Int) (runs, gaps []int) {
+	i := n.BitLen() - 1
+	for i >= 0 {
+		l := 0
+		for i >= 0 && n.Bit(i) == 1 {
+			l++
+			i--
+		}
+		g := 0
+		for i >= 0 && n.Bit(i) == 0 {
+			g++
+			i--
+		}
+		runs, gaps = append(runs, l), append(gaps, g)
+	}
+	return
+}
+
+// neighbours: the same algorithm configuration on targets near the given one -- a few bits
+// flipped, or the same run structure with run lengths nudged, repeated, swapped or re-ordered.
+func neighbours(c string, r *lib.Rand, emit func(string)) {
+	f := strings.Split(c, " ")
+	if f[0] != "execute" {
+		return
+	}
+	cfg, n := parseExec(f)
+	if n.Sign() <= 0 {
+		return
+	}
+	put := func(m *big.Int) {
+		if m.Sign() > 0 && eligible(cfg, m) {
+			emit(execCase(cfg, m))
+		}
+	}
+	for k := 0; k < 40; k++ {
+		m := new(big.Int).Set(n)
+		for j := r.Range(1, 3); j > 0; j-- {
+			b := r.Intn(n.BitLen())
+			m.SetBit(m, b, m.Bit(b)^1)
+		}
+		put(m)
+	}
+	runs, gaps := runsOf(n)
+	for k := 0; k < 160; k++ {
+		rs, gs := append([]int{}, runs...), append([]int{}, gaps...)
+		for j := r.Range(1, 3); j > 0; j-- {
+			i := r.Intn(len(rs))
+			switch r.Intn(6) {
+			case 0:
+				rs[i] += r.Range(1, 2)
+			case 1:
+				if rs[i] > 1 {
+					rs[i] -= 1
+				}
+			case 2: // repeat another run's length
+				rs[i] = rs[r.Intn(len(rs))]
+			case 3:
+				o := r.Intn(len(rs))
+				rs[i], rs[o] = rs[o], rs[i]
+			case 4:
+				gs[i] = r.Range(1, 3)
+			case 5: // one more run, with a length already present
+				rs = append(rs, rs[r.Intn(len(rs))])
+				gs = append(gs, r.Range(0, 2))
+				if gs[len(gs)-2] == 0 {
+					gs[len(gs)-2] = 1
+				}
+			}
+		}
+		put(runsValue(rs, gs))
+	}
+}
+
 func main() {
 	lib.Main(lib.Prop{ID: "C01", Gen: gen, Run: run, Oracle: oracle, Nontrivial: nontrivial,
-		PanicClass: classify})
+		PanicClass: classify, Neighbours: neighbours})
 }
